@@ -188,7 +188,8 @@ pub fn build(spec: &CorpusSpec, repo: &Path, verif: &Path) -> Vec<Case> {
             if src.text.len() > 100_000 {
                 continue;
             }
-            let text = crate::mutate::layout(&mut rng, &src.text);
+            // every kind in turn, so that a small budget still covers all of them
+            let text = crate::mutate::layout_kind(&mut rng, &src.text, i % crate::mutate::LAYOUT_KINDS);
             cases.push(Case {
                 id: format!("lay/{i}<{}", src.id),
                 origin: "layout",
